@@ -187,6 +187,12 @@ def render_op(op, strip, reverse, git, rnd):
     new_name = _name(strip, "b", dst_path)
     devnull_old = pre is None and op.style in ("devnull", "git")
     devnull_new = post is None and op.style in ("devnull", "git")
+    if getattr(op, "fill_devnull", False):
+        # creation-style header for an existing zero-length file
+        if reverse:
+            devnull_new = True
+        else:
+            devnull_old = True
     if git:
         out.append(b"diff --git " + _name(strip, "a", src_path) + b" " + _name(strip, "b", dst_path) + b"\n")
         if pre is None and post_mode is not None:
@@ -262,7 +268,7 @@ class GenConfig:
         self.max_ops = 3
         self.p_fail = 0.5           # probability that the series contains a failing patch
         self.fail_reasons = ["hunks", "hunks", "hunks", "missing", "create-over", "delete-mismatch", "misordered"]
-        self.kinds = ["modify"] * 8 + ["create"] * 2 + ["delete"] * 2 + ["rename"] * 2 + ["chmod"] * 1 + ["truncate"] * 1
+        self.kinds = ["modify"] * 8 + ["create"] * 2 + ["delete"] * 2 + ["rename"] * 2 + ["chmod"] * 1 + ["truncate"] * 1 + ["fill"] * 1
         self.allow_git = True
         self.allow_reverse = True
         self.allow_strip = True
@@ -274,6 +280,8 @@ class GenConfig:
         self.fail_position = None    # force the failing patch index (None = random)
         self.ops_after_fail = True   # patches after the failing one exist (they must not be applied)
         self.empty_dir_deletes = True
+        self.p_second_fail = 0.0     # probability that a patch AFTER the first failing one is poisoned too (it is never reached
+                                     # by a sequential push; a parallel push may run ahead into it)
         self.__dict__.update(kw)
 
 
@@ -311,6 +319,8 @@ def generate(seed, cfg=None):
         data = gen_content(r, cfg.content_max)
         if not data and r.random() < 0.7:
             data = b"only line\n"
+        if r.random() < 0.12:
+            data = b""   # tracked zero-length files (e.g. __init__.py): creations may land on them
         ws.t0[p] = (data, mode)
     npatches = r.randint(cfg.min_patches, cfg.max_patches)
     will_fail = r.random() < cfg.p_fail
@@ -347,9 +357,11 @@ def generate(seed, cfg=None):
             patch.reverse = False
         if fail_idx == pi:
             _poison(r, patch, tree, work, cfg)
+        elif fail_idx is not None and pi > fail_idx and r.random() < cfg.p_second_fail:
+            _poison(r, patch, tree, work, cfg)
         render_patch(patch, r)
         ws.patches.append(patch)
-        if patch.fails():
+        if patch.fails() and ws.fail_at is None:
             ws.fail_at = pi
             if not cfg.ops_after_fail:
                 break
@@ -392,6 +404,23 @@ def _gen_op(r, work, cfg, git, reverse, touched):
         op.style = "git" if git else "samename"
         op.ctx = 0
         work[p] = (b"", mode)
+    elif kind == "fill":
+        # a creation-style patch onto a file that exists with zero length (accepted, as by GNU patch)
+        empties = [p for p in existing if not work[p][0] and p not in touched]
+        if not empties:
+            return None
+        p = r.choice(empties)
+        _, mode = work[p]
+        post = gen_content(r, 10) or b"filled\n"
+        newmode = mode
+        op = Op("modify", p, pre=b"", post=post, pre_mode=mode, post_mode=mode)
+        op.kind = "fill"
+        if git:
+            op.style = "git"
+        else:
+            op.style = r.choice(["devnull", "samename"])
+        op.fill_devnull = op.style in ("devnull", "git")
+        work[p] = (post, newmode)
     elif kind == "create":
         p = _pick_new_path(r, work, cfg, touched)
         post = gen_content(r, 12) or b"new file\n"
